@@ -11,6 +11,11 @@ META = {
         "design_ref": "DESIGN.md §4 C04",
         "note": "Covers the --set/--set-string/--set-literal/--set-json(empty) grammar clause of C04 only (H04-set + frame). Trusted: go/ssa lowering, gosym interpreter and intrinsics (re-validated every run by native replay of sampled paths), z3. Bounds: atoms ≤4 bytes a-z, indices 0-3, arbitrary inputs ≤5 (quick) / ≤7 (thorough) bytes over a 15-symbol alphabet; ASCII only.",
     },
+    "C08": {
+        "text": "Bounded symbolic model checking of the real SortManifests/SplitManifests/manifestFile.sort/kind sorters: for every combination (within the bound) of document layout (separator variants, leading/trailing separators, partial files), head shape (kind known/unknown/empty, metadata nil, annotations nil/empty/other/hook), event lists (known, mixed case with spaces, unknown, mixed) and symbolic weight strings, each document lands exactly once in the manifest list or the hook list, is dropped iff it names an unknown event, partials never appear, content is unaltered, and both lists are ordered by the fixed kind order with unknown kinds last and stable within a kind.",
+        "design_ref": "DESIGN.md §4 C08 (H08-part)",
+        "note": "yaml.Unmarshal of each document head is cut (class S: marker -> harness-built head; native replay writes real YAML and uses the real parser). The separator regexp runs natively on concrete text. The apply-order barrier of kube.perform/batchPerform (H08-barrier) and NOTES.txt filtering in renderResources are outside this claim for now. Bounds: 1 file x <=2 documents (first fully general) for partition, <=3 documents over 5 kinds for ordering (quick); 2 files / 4 documents / 7 kinds (thorough).",
+    },
     "C10": {
         "text": "One symbolic step from an arbitrary small store: records with symbolic valid names (the real ValidateReleaseName regexp decided symbolically), symbolic revisions and statuses, then one symbolic Create/Get/Update/Delete/History call through Storage, compared with a reference map; the whole observable state afterwards is compared too. The solver decides every assertion for all names/revisions within the bound; this is what found the '.v' key-parsing defect.",
         "design_ref": "DESIGN.md §4 C10",
@@ -29,4 +34,4 @@ META = {
 }
 
 _NYB = "harness not built yet in this session (design in DESIGN.md §4); not claimed until its check runs clean"
-NOT_APPLICABLE = {p: _NYB for p in ["C02", "C03", "C05", "C06", "C07", "C08", "C09", "C11", "C12", "C13", "C14", "C15", "C17", "C18", "C19"]}
+NOT_APPLICABLE = {p: _NYB for p in ["C02", "C03", "C05", "C06", "C07", "C09", "C11", "C12", "C13", "C14", "C15", "C17", "C18", "C19"]}
